@@ -121,6 +121,9 @@ class P_pdffit(StructureParser):
                     break
                 else:
                     self.ignored_lines.append(line)
+            else:
+                emsg = "%d: atoms record not found" % p_nl
+                raise StructureFormatError(emsg)
             # Header reading finished, check if required lines were present.
             if not cell_line_read:
                 emsg = "%d: file is not in PDFfit format" % p_nl
